@@ -17,6 +17,10 @@
 //	    thread has ended, the connection is open, its queue is non-empty and the peer has made room; spin = the poller
 //	    never parks. Finally every accepted byte must have reached the peer.
 //
+// Both tiers have "application hooks installed" as a dimension: default reader, g.OnRead custom reader, OnReadBufferAlloc /
+// OnReadBufferFree, custom Execute (the writes then come from Conn.Execute jobs); and deep queues: many queue entries that
+// the socket takes several at a time, so that one writability event has to flush more than a few entries.
+//
 // Tier R (real kernel, real.go): real engines in the three modes on tcp / unix sockets; 16 MiB (quick) written from
 // OnOpen / OnData / OnClose of another connection / another goroutine / with Writev / with Sendfile / from the DialAsync
 // callback to a reader that starts late and never writes; the peer's byte count must keep growing until everything
@@ -38,7 +42,7 @@ var (
 	nCases   = flag.Int("n", 400, "simulated-kernel cases")
 	modelP   = flag.String("model", "", "path of the extracted model (empty: oracle only)")
 	outP     = flag.String("out", "", "report file")
-	realN    = flag.Int("real", 6, "real-kernel cells to run (rotated by seed); -1: all")
+	realN    = flag.Int("real", 12, "real-kernel cells to run (rotated by seed); -1: all")
 	realMiB  = flag.Int("realmb", 16, "MiB written per real-kernel cell")
 	replayS  = flag.String("replay", "", "run one simulated case: <case-seed>")
 	verbose  = flag.Bool("v", false, "print every simulated case")
@@ -50,11 +54,14 @@ func main() {
 	flag.Parse()
 	logging.SetLevel(logging.LevelNone)
 	rep := hx.NewReport("wake", *seed)
-	rep.Rule = "tier S: one case = epoll mode x sync/async read x send-buffer capacity (1 B .. 200 KiB) x origin of the writes (open handler before " +
+	rep.Rule = "tier S: one case = epoll mode x sync/async read x application hooks (default reader, g.OnRead custom reader, OnReadBufferAlloc/Free, custom Execute with " +
+		"the writes issued from Conn.Execute jobs) x send-buffer capacity (1 B .. 420 KiB; 1 case in 5 has a deep queue: 5-9 entries of 40-64 KiB that the " +
+		"send buffer takes all at once) x origin of the writes (open handler before " +
 		"registration, data handler, close handler of another connection, other goroutines, after registration, dial callback, immediate dial) x 2-8 steps " +
 		"(Write / Writev / Sendfile of sizes around the capacity and the 64 KiB queue item limit incl. empty ones, peer reads, peer sends, quiescence checks) " +
 		"x one seeded schedule, then fair rounds until drained; non-trivial = a backlog formed and at least one writability event was needed to drain it. " +
-		"tier R: one cell = mode x transport x origin on real sockets"
+		"tier R: one cell = mode x application hooks x transport x origin x bytes per Write call (everything at once / 60 KiB = one queue entry per call / 1 MiB) on real " +
+		"sockets; quick: one cell per (mode, hooks) pair, the rest rotated by seed; plus epoll_wait return counts while blocked and after the drain (spin)"
 	var m *hx.Model
 	if *modelP != "" {
 		m = hx.StartModel(*modelP)
@@ -65,7 +72,7 @@ func main() {
 		gap = 0
 	}
 	for i := 0; i < gap; i++ { // the directed history that found D38: about two schedules in three take the bad path
-		c := simCase{Seed: int64(i), Mode: 2, Cap: 64, Origin: "dialnow", OW: []wop{{Kind: "w", N: []int{64}}},
+		c := simCase{Seed: int64(i), Mode: 2, Cap: 64, Origin: "dialnow", Hooks: "default", OW: []wop{{Kind: "w", N: []int{64}}},
 			Steps: []simStep{{Kind: "psend"}, {Kind: "quiesce"}, {Kind: "pread"}, {Kind: "write", Writes: []wop{{Kind: "w", N: []int{129}}}}}}
 		runSim(c, m, rep, *verbose)
 	}
